@@ -105,6 +105,7 @@ type Case struct {
 	Sessions  [][]Action   `json:"sessions"`
 	HangMs    int          `json:"hangms"`
 	Tmods     []string     `json:"tmods"`   // per call: what the APPLICATION does to the terminal before it ("raw", "noecho", "" = nothing)
+	RPrompt   string       `json:"rprompt"` // right-side prompt of the application ("" = none)
 	PreActs   [][]Action   `json:"preacts"` // per call: what the application does through the Shell's API before it (histdel, rebind)
 }
 
@@ -337,6 +338,10 @@ func runCase(cs *Case, ci int, pty *ptyPair, em *emu, home string) (alive bool) 
 	rl := readline.NewShell()
 	prompt := cs.Prompt
 	rl.Prompt.Primary(func() string { return prompt })
+	if cs.RPrompt != "" {
+		rp := cs.RPrompt
+		rl.Prompt.Right(func() string { return rp })
+	}
 
 	// history sources
 	type boundSrc struct {
